@@ -580,6 +580,9 @@ def node_key(rk, i, memo=None):
         k = ("input", nd["name"], st)
     elif op == "data":
         k = ("data", i, st)          # data wrappers are compared by identity of their buffer
+    elif op == "kind" and nd["kind"] == "index_lambda":
+        # `a + b` is the same array whether it was asked for as a "kind" or as an "add"
+        k = ("add", node_key(rk, nd["args"][0], memo), node_key(rk, nd["args"][-1], memo), i if st else False)
     elif op in ("kind", "flat", "bcast", "call"):
         k = (op, nd.get("kind"), tuple(node_key(rk, c, memo) for c in nd["args"]), i if st else False)
     elif op == "ctor":
@@ -1531,8 +1534,10 @@ def kinds_family():
     for kind in payload_kinds:
         for bare in (True, False):
             for dt in ("float64", "complex128", "int64", "float32", "bool"):
-                if dt == "bool" and (not bare or kind in ("einsum", "index_lambda")):
+                if dt == "bool" and (not bare or kind in ("einsum", "index_lambda", "sum", "where", "pad")):
                     continue            # no arithmetic on bool payloads
+                if kind == "where" and dt == "complex128":
+                    continue            # no ordering on complex numbers
                 n = 3
                 x = {"op": "input", "name": "x"}
                 y = {"op": "input", "name": "y"}
@@ -1550,7 +1555,7 @@ def kinds_family():
                     r0.append({"op": "kind", "kind": kind, "args": [0, 2], "stored": True})
                     K = 3
                 else:
-                    args = [0] if kind in ("reshape", "roll", "basic_index") else [0, 1]
+                    args = [0] if kind in ("reshape", "roll", "basic_index", "sum", "pad") else [0, 1]
                     r0.append({"op": "kind", "kind": kind, "args": args, "stored": True})
                     K = 2
                 if bare:
@@ -1568,7 +1573,7 @@ def kinds_family():
                 if shape != [n]:
                     rv["shape"] = shape
                 r1 = [{"op": "input", "name": "x"}, rv]
-                r1.append({"op": "flat", "args": [1]})
+                r1.append({"op": "bcast" if shape == [] else "flat", "args": [1]})
                 if dt == "bool":
                     back = 0                    # answer with rank 1's own input
                 else:
@@ -1581,7 +1586,7 @@ def kinds_family():
                     rb["dtype"] = bdt
                 r0.append(rb)
                 rbi = len(r0) - 1
-                r0.append({"op": "flat", "args": [K]})
+                r0.append({"op": "bcast" if list(np.shape(_dummy_value(r0, K, n))) == [] else "flat", "args": [K]})
                 fk = len(r0) - 1
                 if dt == "bool":
                     outs0 = [["aux", hold], ["k", fk], ["res", rbi]]
